@@ -22,6 +22,7 @@ func runC11Gaps2(c *eng.Ctx) {
 	c11gCachePublishedAfterConfigChange(c)
 	c11gResponseFrozenAfterAudit(c)
 	c11gApplyConfig(c)
+	c11gBearerScrub(c)
 	c11gDevices(c)
 }
 
@@ -983,4 +984,155 @@ func c11HashingHelpers(f *ssa.Function, pat string) map[*ssa.Function][]ssa.Call
 		}
 	}
 	return out
+}
+
+// ---------- C11.4 the bearer credential is scrubbed from the request headers before they can be
+// audited: where CheckToken rebuilds req.Headers[<key>] from the values it looked up under that
+// key, a value is KEPT only across strings.HasPrefix(<that value>, <the scheme prefix the HTTP
+// layer strips the token from>) being false — a predicate on the header value and a constant
+// only, never on req.ClientToken (which differs from the header text after trimming, JWT
+// unwrapping, SSC decoding); every success return for a token taken from that header lies after
+// the rebuilt slice was stored back
+func c11gBearerScrub(c *eng.Ctx) {
+	f := c.Fn("vault.(*Core).CheckToken")
+	if f == nil {
+		return
+	}
+	hdrF := c.P.Field("logical.Request.Headers")
+	srcK, okK := c.P.ConstValue("logical.ClientTokenFromAuthzHeader")
+	if hdrF == nil || !okK {
+		c.Clause("R2", "C11.4")
+		c.Unresolved("logical.Request.Headers / logical.ClientTokenFromAuthzHeader")
+		return
+	}
+	// the scheme prefixes the HTTP layer recognises when it takes the token out of the header
+	prefixes := map[string]bool{}
+	if g := c.P.Func("http.getTokenFromReq"); g != nil {
+		for _, hp := range eng.Calls(g, `^strings\.(HasPrefix|CutPrefix)$`) {
+			if k, ok := hp.Common().Args[1].(*ssa.Const); ok {
+				prefixes[eng.Expr(k)] = true
+			}
+		}
+	}
+	isHeaders := func(v ssa.Value) bool {
+		ld, ok := v.(*ssa.UnOp)
+		if !ok || ld.Op != token.MUL {
+			return false
+		}
+		fa, ok := ld.X.(*ssa.FieldAddr)
+		return ok && eng.FieldVar(fa) == hdrF
+	}
+	nScrub := 0
+	for _, in := range eng.Instrs(f, func(in ssa.Instruction) bool { _, ok := in.(*ssa.MapUpdate); return ok }) {
+		mu := in.(*ssa.MapUpdate)
+		key, isConst := mu.Key.(*ssa.Const)
+		if !isHeaders(mu.Map) || !isConst {
+			continue
+		}
+		// the rebuilt slice: appends that can flow into the stored value
+		leaves := map[ssa.Value]bool{}
+		var appends []ssa.Instruction
+		var walk func(v ssa.Value)
+		walk = func(v ssa.Value) {
+			if v == nil || leaves[v] {
+				return
+			}
+			leaves[v] = true
+			switch x := v.(type) {
+			case *ssa.Phi:
+				for _, e := range x.Edges {
+					walk(e)
+				}
+			case *ssa.Call:
+				if bi, ok := x.Call.Value.(*ssa.Builtin); ok && bi.Name() == "append" {
+					appends = append(appends, x)
+					walk(x.Call.Args[0])
+				}
+			}
+		}
+		walk(mu.Value)
+		if len(appends) == 0 {
+			continue
+		}
+		nScrub++
+		c.Clause("R2", "C11.4")
+		// elements appended, and the tests made on exactly those elements
+		var edges []eng.Edge
+		for _, ap := range appends {
+			var elems []ssa.Value
+			if sl, ok := ap.(*ssa.Call).Call.Args[1].(*ssa.Slice); ok {
+				if arr, ok := sl.X.(*ssa.Alloc); ok && arr.Referrers() != nil {
+					for _, r := range *arr.Referrers() {
+						if ia, ok := r.(*ssa.IndexAddr); ok && ia.Referrers() != nil {
+							for _, rr := range *ia.Referrers() {
+								if st, ok := rr.(*ssa.Store); ok && st.Addr == ssa.Value(ia) {
+									elems = append(elems, st.Val)
+								}
+							}
+						}
+					}
+				}
+			}
+			for _, hp := range eng.Calls(f, `^strings\.(HasPrefix|CutPrefix)$`) {
+				a := hp.Common().Args
+				k, isK := a[1].(*ssa.Const)
+				if !isK || len(prefixes) > 0 && !prefixes[eng.Expr(k)] {
+					continue
+				}
+				onElem := false
+				for _, e := range elems {
+					if e == a[0] || eng.ExprDeep(e) == eng.ExprDeep(a[0]) {
+						onElem = true
+					}
+				}
+				if !onElem || hp.Value() == nil {
+					continue
+				}
+				if strings.HasSuffix(eng.CalleeName(hp.Common()), "HasPrefix") {
+					edges = append(edges, eng.BoolEdges(hp.Value(), false)...)
+				} else if refs := hp.Value().Referrers(); refs != nil {
+					for _, r := range *refs {
+						if ex, ok := r.(*ssa.Extract); ok && ex.Index == 1 {
+							edges = append(edges, eng.BoolEdges(ex, false)...)
+						}
+					}
+				}
+			}
+		}
+		c.Cut(f, "value kept in the rebuilt req.Headers["+eng.Expr(key)+"]", appends, eng.Guard{Desc: "HasPrefix(<the header value>, <bearer scheme prefix>) == false", Edges: edges}, nil)
+		// every success return for a token from that header lies after the store (or the header is absent)
+		c.Clause("R3", "C11.4")
+		var absent []eng.Edge
+		for _, lk := range eng.Instrs(f, func(in ssa.Instruction) bool {
+			l, ok := in.(*ssa.Lookup)
+			if !ok || !l.CommaOk || !isHeaders(l.X) {
+				return false
+			}
+			k, ok := l.Index.(*ssa.Const)
+			return ok && eng.Expr(k) == eng.Expr(key)
+		}) {
+			if refs := lk.(*ssa.Lookup).Referrers(); refs != nil {
+				for _, r := range *refs {
+					if ex, ok := r.(*ssa.Extract); ok && ex.Index == 1 {
+						absent = append(absent, eng.BoolEdges(ex, false)...)
+					}
+				}
+			}
+		}
+		start := eng.CondEdges(f, `\.ClientTokenSource == `+reQuote(srcK)+`$`, true)
+		site := "success return for an Authorization-header token lies after the scrub"
+		succ := eng.SuccessReturns(f, 4)
+		switch {
+		case len(start) == 0 || len(succ) == 0:
+			c.Undecided(f, site, mu.Pos(), "no branch on ClientTokenSource == ClientTokenFromAuthzHeader / no success return found (moved?); the rule cannot be evaluated")
+		default:
+			if h := eng.Reach(eng.Query{Fn: f, StartEdges: start, Barriers: []ssa.Instruction{mu}, Blocked: absent, Target: eng.IsTarget(succ)}); h != nil {
+				c.Violation(f, site, h.Instr.Pos(), "CheckToken can report success for a token taken from the Authorization header without storing the scrubbed header values back: the credential stays in the headers handed to the audit broker", h.Witness)
+			} else {
+				c.OK(f, site, mu.Pos(), "every success return reachable from ClientTokenSource == AuthzHeader passes the store of the rebuilt slice (or the header is absent)")
+			}
+		}
+	}
+	c.Clause("R2", "C11.4")
+	c.Floor(f, "header value lists rebuilt and stored back into req.Headers", nScrub, 1)
 }
